@@ -36,6 +36,13 @@ def policyOf (s : String) : Option (Policy × (Bytes → Ret)) :=
   | "false" => some (.setFalse, fun d => .one d)
   | _ => (callableOf s).map fun f => (.callable, f)
 
+/-- what else HttpStream emitted, as far as the outside can see it: the error response to the client (unless the
+    connection was closed first: `blocked`), the error to the server, how often the headers hook and the message hook
+    fired, and whether the end of the message was sent -/
+def extraBits (outs : List Out) (blocked : Bool) : String :=
+  let errc := outs.contains Out.errClient && !blocked
+  s!"{if errc then 1 else 0} {if outs.contains Out.errServer then 1 else 0} {outs.count Out.hookHeaders} {outs.count Out.hookMsg} {if outs.contains Out.sendEnd then 1 else 0}"
+
 def showChunks (l : List Bytes) : String :=
   if l.isEmpty then "-" else ",".intercalate (l.map Hex.encode)
 
@@ -56,7 +63,7 @@ def flow (dir lim thr store pol exp endS chunks : String) : String :=
       -- what reaches the peer: empty data events are not written by the HTTP/1 writers
       let peer := (dataOf outs).filter (· ≠ [])
       let content := match r.1.content with | some c => showBytes c | none => "none"
-      s!"{if err then 1 else 0} {if relayed then 1 else 0} {showNatList smp} {showChunks peer} {content}"
+      s!"{if err then 1 else 0} {if relayed then 1 else 0} {showNatList smp} {showChunks peer} {content} {extraBits outs false}"
     | _, _ => "rejected"
   | _, _, _, _, _ => "bad-op"
 
@@ -80,7 +87,7 @@ def wire (dir lim thr store pol fr segs close : String) : String :=
       let relayed := w.outs.contains Out.sendHead
       let peer := (dataOf w.outs).filter (· ≠ [])
       let content := match w.st.content with | some c => showBytes c | none => "none"
-      s!"{if err then 1 else 0} {if relayed then 1 else 0} {showNatList w.smp} {showChunks peer} {content} {if w.sawTrailer then 2 else if w.protoErr then 1 else 0}"
+      s!"{if err then 1 else 0} {if relayed then 1 else 0} {showNatList w.smp} {showChunks peer} {content} {if w.sawTrailer then 2 else if w.protoErr then 1 else 0} {extraBits w.outs (dir == "req" && w.errBlocked)}"
     | _, _ => "rejected"
   | _, _, _, _, _ => "bad-op"
 
@@ -94,7 +101,7 @@ def renderSide (o : Opts) (rq rs : Side) (d : Bool) (evs : List (Bool × Ev)) : 
   let smp := samplesX o rq rs d {} evs
   let peer := (dataOf outs).filter (· ≠ [])
   let content := match st.content with | some c => showBytes c | none => "none"
-  s!"{if err then 1 else 0} {if relayed then 1 else 0} {showNatList smp} {showChunks peer} {content}"
+  s!"{if err then 1 else 0} {if relayed then 1 else 0} {showNatList smp} {showChunks peer} {content} {extraBits outs false}"
 
 /-- request body and response body through the same HttpStream; the response block arrives after `at` request data
     events (`none`: after the end of the request; `some none`: never) -/
